@@ -394,9 +394,45 @@ pub fn c10(tier: Tier, seed: u64) -> Verdict {
     let rule: fn(&Ctx) -> bool = |c| c.tags.contains("static_nonalloc_op") && c.tags.contains("static_write_op");
     let mut merged = run_history_list("C10", list.len(), |i| list[i].clone(), rule);
     if merged.violation.is_none() {
+        // calls that are refused (a size no allocator can serve, or an injected allocation failure) write nothing: the
+        // handle keeps borrowing (C10.keep_borrowing), whole or shortened
+        let pool = statics::pool();
+        let mut refused: Vec<History> = Vec::new();
+        for k in (0..pool.texts.len() as u16).step_by(3) {
+            for cut in [None, Some(Idx::Boundary(20000)), Some(Idx::Raw(9))] {
+                for op in [
+                    Op::Reserve { slot: 0, n: Size::Abs(1 << 60), try_: true },
+                    Op::Reserve { slot: 0, n: Size::Abs((1 << 56) - 1), try_: false },
+                    Op::Reserve { slot: 0, n: Size::Abs(3 << 20), try_: true },
+                    Op::PushStr { slot: 0, text: Text::Repeat { n: 2 << 20, unit: 'r' }, try_: true },
+                    Op::InsertStr { slot: 0, idx: Idx::Raw(0), text: Text::Repeat { n: 2 << 20, unit: 'r' }, try_: false },
+                    Op::Extend { slot: 0, it: IterSpec { kind: IterKind::Char, items: vec![], slots: vec![], hint: Some(1 << 58), panic_at: None, loose: None, fx: None, upper: None } },
+                ] {
+                    let mut ops = vec![Op::FromStatic { slot: 0, k }, Op::Clone { slot: 1, from: 0, via: CloneVia::Clone }];
+                    if let Some(c) = cut {
+                        ops.push(Op::Truncate { slot: 0, n: c, try_: false });
+                    }
+                    ops.push(op);
+                    ops.push(Op::Compare { a: 0, b: 1 });
+                    ops.push(Op::Pop { slot: 0, try_: false });
+                    refused.push(History { ops, plan: Plan::default() });
+                }
+            }
+        }
+        merged.merge(run_history_list("C10", refused.len(), |i| refused[i].clone(), rule));
+        if merged.violation.is_none() {
+            // injected failures: every allocator request of a thinned deterministic list fails in turn
+            let thin: Vec<History> = list.iter().step_by(11).cloned().collect();
+            let case = super::enumerators::fault_case("C10", false);
+            let mut m = super::enumerators::run_catalogue("C10", &thin, &case);
+            m.counters.remove("catalogue_histories");
+            merged.merge(m);
+        }
+    }
+    if merged.violation.is_none() {
         let n = tier.pick(10_000, 300_000);
-        for (i, p) in [Profile::statics(), Profile { w_append: 26, w_index: 16, ..Profile::statics() }].into_iter().enumerate() {
-            let m = run_sharded("C10", seed, i as u64, n, || history_strategy(&p), plain_history_case("C10", rule));
+        for (i, p) in [Profile::statics(), Profile { w_append: 26, w_index: 16, ..Profile::statics() }, Profile { giant_sizes: true, w_reserve: 16, ..Profile::statics() }].into_iter().enumerate() {
+            let m = run_sharded("C10", seed, i as u64, if i == 2 { n / 3 } else { n }, || history_strategy(&p), plain_history_case("C10", rule));
             merged.merge(m);
             if merged.violation.is_some() {
                 break;
@@ -408,7 +444,7 @@ pub fn c10(tier: Tier, seed: u64) -> Verdict {
         tier,
         seed,
         "exploration",
-        "pool of 24 leaked 'static texts (lengths 0..300, ASCII and multi-byte, incl. 16-byte texts ending in a continuation byte); deterministic list (every text x truncation point x first writing operation) plus proptest histories biased to from_static_str/clone/pop/truncate/clear then writes; every pool text compared with its pristine copy after every step; non-trivial = history applies >= 1 non-allocating operation and >= 1 writing operation to handles of a static text longer than 16 bytes; distinct history digests",
+        "pool of 24 leaked 'static texts (lengths 0..300, ASCII and multi-byte, incl. 16-byte texts ending in a continuation byte); deterministic list (every text x truncation point x first writing operation) plus calls that are refused on whole and shortened static handles (sizes no allocator serves; every allocator request of a thinned list failing in turn): the handle keeps borrowing; plus proptest histories biased to from_static_str/clone/pop/truncate/clear then writes (one profile with giant sizes); every pool text compared with its pristine copy after every step; non-trivial = history applies >= 1 non-allocating operation and >= 1 writing operation to handles of a static text longer than 16 bytes; distinct history digests",
         ASSUME_HIST,
         &merged,
         t0.elapsed().as_secs_f64(),
@@ -421,7 +457,7 @@ pub fn c11(tier: Tier, seed: u64) -> Verdict {
     let rule: fn(&Ctx) -> bool = |c| c.tags.contains("fill_exact") || c.tags.contains("reserve_shared_or_static");
     let mut merged = Merged::new();
     let n = tier.pick(12_000, 350_000);
-    for (i, p) in [Profile::capacity(), Profile { w_clone: 18, w_static: 8, ..Profile::capacity() }, Profile { giant_sizes: true, ..Profile::capacity() }]
+    for (i, p) in [Profile::capacity(), Profile { w_clone: 18, w_static: 8, intrusions: true, ..Profile::capacity() }, Profile { giant_sizes: true, ..Profile::capacity() }]
         .into_iter()
         .enumerate()
     {
@@ -522,6 +558,50 @@ fn push_loop(n: usize, unit: &[char], kind: usize) -> Result<(usize, u64, u64), 
         return Err(("C11.cap_ge_len".into(), format!("capacity {cap} < len {model_len}")));
     }
     Ok((model_len, req, moved))
+}
+
+/// The decoders append as they go: a text that outgrows the buffer they started with still costs O(log n) requests.
+/// kind 0: from_utf8_lossy(n valid bytes + k x 0xFF), 1: from_utf16 / 2: from_utf16_lossy of n ASCII + k three-byte units
+pub fn c12_decoder_case(kind: usize, n: usize, k: usize) -> Option<Violation> {
+    use crate::shadow;
+    shadow::with(|h| {
+        h.begin_case();
+        h.giant_limit = 256 << 20;
+    });
+    let (out_len, ok) = match kind {
+        0 => {
+            let mut b = vec![b'v'; n];
+            b.extend(std::iter::repeat_n(0xFFu8, k));
+            let s = lean_string::LeanString::from_utf8_lossy(&b);
+            (s.len(), s.len() == n + 3 * k)
+        }
+        _ => {
+            let mut u = vec![0x61u16; n];
+            u.extend(std::iter::repeat_n(0x20acu16, k));
+            let s = if kind == 1 { lean_string::LeanString::from_utf16(&u).unwrap_or_default() } else { lean_string::LeanString::from_utf16_lossy(&u) };
+            (s.len(), s.len() == n + 3 * k)
+        }
+    };
+    let (req, viol, live) = shadow::with(|h| {
+        let r = (h.requests_total, h.violations.len(), h.live.len());
+        h.end_case();
+        r
+    });
+    let case = serde_json::json!({"kind": "decoder_growth", "decoder": kind, "n": n, "k": k});
+    if !ok || viol != 0 || live != 0 {
+        return Some(Violation { case, clause: "C16.decode".into(), step: 0, detail: format!("decoder {kind}: wrong length, heap violation or leak ({viol}, {live})") });
+    }
+    let l = out_len.max(17) as f64;
+    let bound = ((l / 16.0).ln() / 1.5f64.ln()).ceil() as u64 + 3;
+    if req > bound {
+        return Some(Violation {
+            case,
+            clause: "C12.loop_requests".into(),
+            step: 0,
+            detail: format!("decoding {n} + {k} units into {out_len} bytes issued {req} allocator requests, more than ceil(log1.5(len/16))+3 = {bound}"),
+        });
+    }
+    None
 }
 
 pub fn c12_loop_case(n: usize, mix: usize) -> Option<Violation> {
@@ -640,12 +720,33 @@ pub fn c12(tier: Tier, seed: u64) -> Verdict {
         });
         merged.merge(m);
     }
+    if merged.violation.is_none() {
+        let mut m = Merged::new();
+        'd: for kind in 0..3usize {
+            for n in [0usize, 20, 100, 1000, 65_536] {
+                for k in [10usize, 200, 5000] {
+                    m.evaluations += 1;
+                    *m.counters.entry("decoder_growth_cases".into()).or_insert(0) += 1;
+                    if let Some(v) = c12_decoder_case(kind, n, k) {
+                        if v.clause.starts_with("C12") {
+                            m.violation = Some(v);
+                            break 'd;
+                        }
+                        m.abandoned_foreign += 1;
+                    } else {
+                        m.distinct.insert(digest(&("decoder", kind, n, k)));
+                    }
+                }
+            }
+        }
+        merged.merge(m);
+    }
     finish(
         "C12",
         tier,
         seed,
         "exploration",
-        "growth events (push/push_str/insert/insert_str/reserve/+=/+/single-piece write! whose pre-state cannot hold the result and whose result is on the heap) in proptest histories with texts up to 4 KiB: new capacity >= L+L/2 and <= max(L+L/2, L+A); plus push-one-char loops for n in 1..=300, 10^3, 10^4, 10^5, 2^20 (thorough 4*2^20) x 3 character mixes: allocator requests <= ceil(log1.5(len/16))+3 and bytes moved <= 6*len; non-trivial = growth event, distinct = distinct (pre-storage kind, old length L, requested amount A) triples, and distinct loops",
+        "growth events (push/push_str/insert/insert_str/reserve/+=/+/single-piece write! whose pre-state cannot hold the result and whose result is on the heap) in proptest histories with texts up to 4 KiB: new capacity >= L+L/2 and <= max(L+L/2, L+A); plus push-one-char loops for n in 1..=300, 10^3, 10^4, 10^5, 2^20 (thorough 4*2^20) x 3 character mixes: allocator requests <= ceil(log1.5(len/16))+3 and bytes moved <= 6*len; the same request bound for the decoders when their output outgrows the buffer they start with (from_utf8_lossy with runs of invalid bytes, from_utf16 / from_utf16_lossy with three-byte characters); non-trivial = growth event, distinct = distinct (pre-storage kind, old length L, requested amount A) triples, and distinct loops",
         ASSUME_HIST,
         &merged,
         t0.elapsed().as_secs_f64(),
